@@ -25,6 +25,8 @@ variable {P α : Type}
 
 /-- An `Operation`: gate (as functions), location, stored parameters. -/
 structure GOp (P α : Type) where
+  oid : Nat                          -- which `Operation` *object*: grid entries with the same
+                                     -- `oid` are one Python object (parameter writes alias)
   gid : Nat                          -- which gate object (printing / equality only)
   loc : List Nat                     -- `location` (ordered, distinct, non-empty)
   params : List P                    -- `_params`
@@ -117,36 +119,50 @@ def Circ.getParam (c : Circ P α) (i : Int) : Except Err P := do
   | some p => pure p
   | none => throw .indexError
 
-/-- `Circuit.set_param(param_index, value)`: in-place `op.params[param] = value`. -/
+/-- Apply `f` to every grid entry that is the `Operation` object `oid` (a Python object that
+was appended twice — `c.append(op); c.append(op)`, `c.extend(other)` twice — is mutated
+once and seen everywhere). -/
+def writeAliases (oid : Nat) (f : GOp P α → GOp P α) (ops : List (Nat × GOp P α)) :
+    List (Nat × GOp P α) :=
+  ops.map (fun e => if e.2.oid == oid then (e.1, f e.2) else e)
+
+/-- `Circuit.set_param(param_index, value)`: in-place `op.params[param] = value` on the
+operation *object* found at the location. -/
 def Circ.setParam (c : Circ P α) (i : Int) (v : P) : Except Err (Circ P α) := do
   let (cycle, qudit, k) ← c.getParamLocation i
   let op ← c.getOp cycle qudit
   if k < op.params.length then
-    pure { c with ops := modifyAt cycle qudit (fun o => { o with params := o.params.set k v }) c.ops }
+    pure { c with ops := writeAliases op.oid (fun o => { o with params := o.params.set k v }) c.ops }
   else throw .indexError
 
-/-- The loop of `set_params`: `op.params = list(params[idx: idx + op.num_params])`
-(the `Operation.params` setter re-checks the length: ValueError). -/
+/-- The loop of `set_params`: `op.params = list(params[idx: idx + op.num_params])` for the
+operations in iteration order (`todo`), each assignment being visible in every grid entry
+holding the same object (`cur` is the whole grid).  The `Operation.params` setter re-checks
+the length: ValueError. -/
 def setParamsLoop (params : List P) :
-    List (Nat × GOp P α) → Nat → Except Err (List (Nat × GOp P α))
-  | [], _ => .ok []
-  | (cycle, op) :: rest, idx => do
+    List (Nat × GOp P α) → Nat → List (Nat × GOp P α) → Except Err (List (Nat × GOp P α))
+  | [], _, cur => .ok cur
+  | (_, op) :: todo, idx, cur => do
     let slice := (params.drop idx).take op.numParams
     if slice.length ≠ op.numParams then throw .valueError
-    let rest' ← setParamsLoop params rest (idx + op.numParams)
-    pure ((cycle, { op with params := slice }) :: rest')
+    setParamsLoop params todo (idx + op.numParams)
+      (writeAliases op.oid (fun o => { o with params := slice }) cur)
 
 /-- `Circuit.set_params(params)`; `check_parameters` raises ValueError when
 `len(params) != num_params`. -/
 def Circ.setParams (c : Circ P α) (params : List P) : Except Err (Circ P α) := do
   if params.length ≠ c.numParams then throw .valueError
-  let ops ← setParamsLoop params c.ops 0
+  let ops ← setParamsLoop params c.ops 0 c.ops
   pure { c with ops := ops }
+
+/-- No `Operation` object occupies two grid entries. -/
+def Circ.OidsDistinct (c : Circ P α) : Prop := (c.ops.map (·.2.oid)).Nodup
 
 /-- `FrozenParameterGate(gate, {k: v})` as functions: `get_full_params` inserts `v` at
 index `k`; the gradient drops entry `k` (`grads[self.unfixed_param_idxs]`). -/
 def freezeGate (op : GOp P α) (k : Nat) (v : P) (gid : Nat) : GOp P α :=
   { op with
+    oid := gid                                   -- `replace_gate` builds a new Operation object
     gid := gid
     numParams := op.numParams - 1
     params := op.params.eraseIdx k
@@ -195,26 +211,16 @@ def stateLoop (radixes : List Nat) (explicit : Bool) (params : List P) :
     let v ← svApply conj radixes v u op.loc
     stateLoop radixes explicit params rest (idx + op.numParams) v
 
-/-- `StateVector(input)` without radixes: qubits when the dimension is a power of two,
-qutrits when it is a power of three, RuntimeError otherwise. -/
-def inferRadixes (dim : Nat) : Except Err (List Nat) :=
-  if dim &&& (dim - 1) == 0 then .ok (List.replicate (Nat.log2 dim) 2)
-  else match (List.range (dim + 1)).find? (fun k => 3 ^ k == dim) with
-    | some k => .ok (List.replicate k 3)
-    | none => .error .runtimeError
-
-/-- `Circuit.get_statevector(in_state, params)`.  `new_state = StateVector(in_state)`:
-`stateRadixes = some rs` when `in_state` already is a `StateVector` with radixes `rs`;
-`none` when it is a plain vector, whose radixes are then *inferred from the dimension*
-and not taken from the circuit (see `C06_statevector_witness`).  Every `apply` uses the
-state's radixes. -/
+/-- `Circuit.get_statevector(in_state, params)`.
+`new_state = StateVector(in_state, self.radixes)`: a plain vector (`stateRadixes = none`)
+is interpreted with the circuit's radixes; an input that already is a `StateVector`
+(`stateRadixes = some rs`) keeps its own radixes (copy constructor).  A dimension that
+does not match the radixes is a ValueError.  Every `apply` uses the state's radixes. -/
 def Circ.getStatevector (c : Circ P α) (inState : T α) (stateRadixes : Option (List Nat))
     (params : List P) : Except Err (T α) := do
   if params.length ≠ 0 then
     if params.length ≠ c.numParams then throw .valueError
-  let sr ← (match stateRadixes with
-    | some rs => pure rs
-    | none => inferRadixes inState.data.size : Except Err (List Nat))
+  let sr := stateRadixes.getD c.radixes
   if prod sr ≠ inState.data.size then throw .valueError    -- 'Qudit radixes mismatch with dimension.'
   stateLoop conj sr (params.length ≠ 0) params c.ops 0 ⟨[inState.data.size], inState.data⟩
 
@@ -270,7 +276,8 @@ def Circ.getUnitaryAndGrad (c : Circ P α) (params : List P) :
 /-- `CircuitGate(circuit)` as a gate: `get_unitary(params) = circuit.get_unitary(params)`
 (stored parameters of the inner circuit when `params` is empty). -/
 def circuitGate (c : Circ P α) (gid : Nat) (loc : List Nat) (params : List P) : GOp P α :=
-  { gid := gid, loc := loc, params := params, numParams := c.numParams, radixes := c.radixes
+  { oid := gid, gid := gid, loc := loc, params := params, numParams := c.numParams,
+    radixes := c.radixes
     unitary := fun ps => match c.getUnitary conj ps with
       | .ok m => m
       | .error _ => ⟨[], #[]⟩
